@@ -206,6 +206,22 @@ func runC05(s *kernel.Sim) {
 		mutations = append(mutations, fmt.Sprintf("%s-filter:status=%v,methods=%v,headers=%v,query=%v", tag, d.Status, d.Methods, d.Headers, d.Query))
 	}
 	addFilter(&fd, "f0")
+	// parameters of a Filter processor that the loader does not look into: URL
+	// patterns that are no regular expressions, odd status ranges, methods, bodies
+	// (a quarter of the runs, one or two processors)
+	if tp.Chance(1, 4) {
+		menu := [][2]string{{"url", "a.com/(v1"}, {"url", "["}, {"url", "a.com/c/*"}, {"url", "a.com/c/{id}"}, {"endpoint", "/c/(x"}, {"endpoint", "*"},
+			{"method", "GET"}, {"method", ""}, {"body", "(unclosed"}, {"body", "card"}, {"status_code_range", "200-299"}, {"status_code_range", "500-"}}
+		for k := tp.Range(1, 2); k > 0; k-- {
+			i := tp.Choose(len(fd.Procs))
+			if fd.Procs[i].Type != "Filter" {
+				continue
+			}
+			kv := menu[tp.Choose(len(menu))]
+			fd.Procs[i].Params = append(fd.Procs[i].Params, kv)
+			mutations = append(mutations, fmt.Sprintf("filter-processor-param:%s:%s=%q", fd.Procs[i].Key, kv[0], kv[1]))
+		}
+	}
 	// one run in ten: two flows that both look at the query string of every request below a.com/c
 	queryBoth := tp.Chance(1, 10)
 	if queryBoth {
